@@ -686,8 +686,8 @@ func finish(total *Env, start time.Time, run func(e *Env)) int {
 			fmt.Printf("  case: %s\n  signature: %s\n  %s\n", f.Desc, f.Sig, firstLines(f.Detail, 6))
 			printed++
 		}
-		if len(confirm) < 3 {
-			confirm = append(confirm, p)
+		if len(confirm) < 12 && (bySig[f.Sig] == 1 || len(confirm) < 3) {
+			confirm = append(confirm, p) // the first of every signature class, and the first three overall
 		}
 		exit = 1
 	}
@@ -696,24 +696,46 @@ func finish(total *Env, start time.Time, run func(e *Env)) int {
 	}
 	// determinism of reported violations: replay must reproduce the same signature
 	if exit == 1 && os.Getenv("VERIF_NOCONFIRM") == "" {
+		// A violation is believed when its recorded case fails the same way in two fresh replays. The first
+		// candidates are tried in turn until one is confirmed; candidates that do not reproduce are reported.
+		// If none reproduces, nothing is believed: harness error (exit 2), not a violation.
 		self, _ := os.Executable()
-		for _, p := range confirm {
-			for k := 0; k < 2; k++ {
+		confirmed, flaky := 0, 0
+		var lastOut string
+		for ci, p := range confirm {
+			ok := true
+			for k := 0; k < 2 && ok; k++ {
 				cmd := exec.Command(self, "replay", p)
 				cmd.Env = append(os.Environ(), "VERIF_REPLAY_QUIET=1")
 				out, _ := cmd.CombinedOutput()
 				if cmd.ProcessState == nil || cmd.ProcessState.ExitCode() != 1 {
-					fmt.Fprintf(os.Stderr, "HARNESS-ERROR %s: violation %s did not reproduce on replay (exit %v):\n%s\n", id, p, cmd.ProcessState, tail(string(out), 2000))
-					return 2
+					ok = false
+					lastOut = fmt.Sprintf("violation %s did not reproduce on replay (exit %v):\n%s", p, cmd.ProcessState, tail(string(out), 2000))
 				}
 			}
+			if ok {
+				confirmed++
+			} else {
+				flaky++
+				fmt.Printf("NOT-REPRODUCED property=%s replay=%s (the recorded case did not fail the same way when replayed)\n", id, p)
+			}
+			if confirmed >= 1 && ci >= 2 {
+				break
+			}
+		}
+		if confirmed == 0 {
+			fmt.Fprintf(os.Stderr, "HARNESS-ERROR %s: none of %d checked violations reproduced on replay; last: %s\n", id, flaky, lastOut)
+			return 2
+		}
+		if flaky > 0 {
+			fmt.Printf("note: %d of %d checked violations did not reproduce on replay (behaviour that differs between identical runs of the same case); %d reproduced twice\n", flaky, flaky+confirmed, confirmed)
 		}
 	}
 	writeEvidence(total, start, int64(len(viol)), hit)
 	line := fmt.Sprintf("%s %s: evaluations=%d distinct=%d nontrivial=%d outcomes=%d violations=%d known_findings_hit=%d exhaustive=%v wall=%.1fs\n",
 		id, total.Tier, m.Evaluations, m.Distinct, m.Nontrivial, len(m.Outcomes), len(viol), len(hit), len(m.Incomplete) == 0, time.Since(start).Seconds())
 	fmt.Print(line)
-	if os.Getenv("VERIF_REPO") == "" {
+	if os.Getenv("VERIF_REPO") == "" && os.Getenv("VERIF_DEV") == "" {
 		// last summary line per tier (the evidence file only holds the most recent run of either tier)
 		_ = os.MkdirAll(filepath.Join(Root, "summary"), 0o755)
 		_ = os.WriteFile(filepath.Join(Root, "summary", id+"."+total.Tier+".txt"), []byte(line), 0o644)
@@ -779,7 +801,7 @@ func writeEvidence(total *Env, start time.Time, violations int64, hit map[string
 	b, _ := json.MarshalIndent(ev, "", " ")
 	// development runs against a scratch checkout (VERIF_REPO) must not overwrite the evidence of /repo
 	evdir := filepath.Join(Root, "evidence")
-	if os.Getenv("VERIF_REPO") != "" {
+	if os.Getenv("VERIF_REPO") != "" || os.Getenv("VERIF_DEV") != "" {
 		evdir = filepath.Join(Root, ".build", "evidence-dev")
 	}
 	os.MkdirAll(evdir, 0o755)
